@@ -96,6 +96,10 @@ def make_draw(op, dim, r, core=False, mp=True, momentum=None, odim=None, unit_qu
         else:
             raise ValueError(kind)
     if op.group == "equality":
+        # a coordinate that is exactly zero sits on the decision boundary of a relative tolerance (atol = 0): the
+        # comparison is then decided by rounding in whichever system it is carried out -- use non-zero components
+        if any(c == 0 for c in self_rv.comps()):
+            self_rv = R.RV(*[c if c != 0 else gen.dyadic(r, 0.1, 10) for c in self_rv.comps()])
         # clear-cut operands: either a tiny rescaling of self (close) or an unrelated vector (far)
         if r.random() < 0.5:
             o = R.op_scale(self_rv, 1 + mpf(2) ** -12)
